@@ -17,7 +17,7 @@ theorem endData_facts (c : Conn) (h : Sess c) (hp : live c → (judge c.trace).t
     cases hg : c.srvGone with
     | true =>
       simp only [Bool.true_or, if_true]
-      have e1 : c.serverTurn .eod 250 = (c, .error .eof) := by unfold Conn.serverTurn; simp [hg]
+      have e1 : c.serverTurn .eod 250 = (c, .error (c.broken.getD .eof)) := by unfold Conn.serverTurn; simp [hg]
       rw [e1]
       exact ⟨h, fun hl => by have := hl.2.1; rw [hg] at this; cases this⟩
     | false =>
